@@ -406,9 +406,14 @@ static void race_access(const void *addr, size_t n, bool write, bool atomic) {
 }
 
 void shadow_reset(const void *p, size_t n) {
-	uint64_t o = off(p);
-	for (uint64_t pg = o >> 12; pg <= (o + n - 1) >> 12; pg++) touch_page(pg << 12);
-	memset(shadow + o, 0, n * sizeof(Cell));
+	// Untouched pages are already clean (every run ends by clearing the pages it touched): only pages that were
+	// accessed earlier in this run need their history erased. Keeps a 256 KiB map() from costing a 2 MiB memset.
+	uint64_t o = off(p), e = o + n;
+	for (uint64_t pg = o >> 12; pg <= (e - 1) >> 12; pg++) {
+		if (!page_touched[pg]) continue;
+		uint64_t a = std::max<uint64_t>(o, pg << 12), b = std::min<uint64_t>(e, (pg + 1) << 12);
+		memset(shadow + a, 0, (b - a) * sizeof(Cell));
+	}
 	drop_locs(o, n);
 }
 void shadow_fresh_write(const void *p, size_t n) {
